@@ -440,6 +440,63 @@ fn strict_load(text: &str) -> Result<AutosarVersion, String> {
     }
 }
 
+fn value_fits(cd: &CharacterData, spec: &CharacterDataSpec) -> bool {
+    match (spec, cd) {
+        (CharacterDataSpec::Pattern { check_fn, max_length, .. }, CharacterData::String(s)) => s.len() <= max_length.unwrap_or(usize::MAX) && check_fn(s.as_bytes()),
+        (CharacterDataSpec::String { max_length, .. }, CharacterData::String(s)) => s.len() <= max_length.unwrap_or(usize::MAX),
+        (CharacterDataSpec::UnsignedInteger, CharacterData::String(_)) | (CharacterDataSpec::Float, CharacterData::String(_)) => false,
+        _ => true,
+    }
+}
+
+/// independent look at the file for the two KNOWN classes (what strict loading checks and the compatibility check does not):
+/// an element that is identifiable in the target version without SHORT-NAME; a value that does not fit the specification of
+/// the target version's element type.  Types are assigned top-down as strict loading does.
+fn explain_walk(e: &Element, vt: ElementType, file: &WeakArxmlFile, target: AutosarVersion, why: &mut std::collections::BTreeSet<&'static str>, depth: usize) {
+    if vt.is_named_in_version(target) && e.get_sub_element(ElementName::ShortName).is_none() {
+        why.insert("short-name-missing");
+    }
+    if let Some(spec) = vt.chardata_spec() {
+        for c in e.content() {
+            if let ElementContent::CharacterData(cd) = c {
+                if !value_fits(&cd, spec) {
+                    why.insert("value-revalidation");
+                }
+            }
+        }
+    }
+    for a in e.attributes() {
+        if let Some(s) = vt.find_attribute_spec(a.attrname) {
+            if !value_fits(&a.content, s.spec) {
+                why.insert("value-revalidation");
+            }
+        }
+    }
+    if depth > 300 {
+        return;
+    }
+    for sub in e.sub_elements() {
+        let infile = match sub.file_membership() {
+            Ok((_, set)) => set.contains(file),
+            Err(_) => false,
+        };
+        if !infile {
+            continue;
+        }
+        if let Some((t, _)) = vt.find_sub_element(sub.element_name(), target as u32) {
+            explain_walk(&sub, t, file, target, why, depth + 1);
+        }
+    }
+}
+fn explain(file: &ArxmlFile, target: AutosarVersion) -> String {
+    let mut why = std::collections::BTreeSet::new();
+    if let Ok(model) = file.model() {
+        let root = model.root_element();
+        explain_walk(&root, root.element_type(), &file.downgrade(), target, &mut why, 0);
+    }
+    why.into_iter().collect::<Vec<_>>().join(",")
+}
+
 /// the oracle for one file and one target on the current state; `restore` rebuilds the state when set_version cannot be undone
 pub fn oracle_one(file: &ArxmlFile, target: AutosarVersion) -> Verdict {
     let src = file.version();
@@ -453,6 +510,7 @@ pub fn oracle_one(file: &ArxmlFile, target: AutosarVersion) -> Verdict {
         None => return Verdict { line: "DISAGREE relabel: xsd name not in the header".into(), agree: false, judged: true, clean: false },
     };
     let strict = strict_load(&rel);
+    let why = explain(file, target);
     let chk = guard(|| file.check_version_compatibility(target));
     let (errs, mask) = match chk {
         Ok(x) => x,
@@ -509,7 +567,7 @@ pub fn oracle_one(file: &ArxmlFile, target: AutosarVersion) -> Verdict {
     let agree_core = clean == inmask && clean == setok;
     let agree = if judged { agree_core && s_ok == clean && (post_ok || s_ok != clean) } else { agree_core };
     let line = format!(
-        "src={} target={} base={} strict={} clean={} nerr={} mask={} inmask={} setver={}{}",
+        "src={} target={} base={} strict={} clean={} nerr={} mask={} inmask={} setver={} why={}{}",
         src as u32,
         target as u32,
         match &base { Ok(_) => "ok".to_string(), Err(e) => e.clone() },
@@ -519,6 +577,7 @@ pub fn oracle_one(file: &ArxmlFile, target: AutosarVersion) -> Verdict {
         mask,
         inmask as u8,
         setok as u8,
+        if why.is_empty() { "-" } else { &why },
         if post.is_empty() { String::new() } else { format!(" post:{}", post.trim()) }
     );
     Verdict { line, agree, judged, clean }
